@@ -8,5 +8,7 @@ pub const FLAVOUR: &str = "eyep";
 pub const FLAVOUR: &str = "dbg";
 #[cfg(all(feature = "std", not(feature = "eyepatch"), not(feature = "dbgflavour")))]
 pub const FLAVOUR: &str = "all";
-#[cfg(all(not(feature = "std"), not(feature = "eyepatch")))]
+#[cfg(all(not(feature = "std"), not(feature = "eyepatch"), not(feature = "nsx")))]
 pub const FLAVOUR: &str = "nostd";
+#[cfg(all(not(feature = "std"), not(feature = "eyepatch"), feature = "nsx"))]
+pub const FLAVOUR: &str = "nsx";
